@@ -214,6 +214,7 @@ theorem wrapS8_succ {ply : Int} (h0 : 0 ≤ ply) (h1 : ply < 63) : wrapS8 (ply +
 
 theorem toNat_succ {ply : Int} (h0 : 0 ≤ ply) : (ply + 1).toNat = ply.toNat + 1 := by omega
 
+omit [PsInv σ] in
 theorem callChild_snd (child : Child σ) (a b : Score) (d ply : Int) (nt : NodeType) (s : St σ) :
     (callChild child a b d ply nt s).2 = (child a b d ply nt s).2 := rfl
 
@@ -315,6 +316,7 @@ theorem abAfter_spec (c : Comp σ π) (L : Limits) {Good : Board → Prop} (hl :
       · exact ⟨hm, hf.board, hf.hstack, hf.frames, Or.inl hp,
           fun l' h => by rcases h with h | h <;> cases h; exact ⟨rfl, _, rfl⟩⟩
 
+omit [PsInv σ] in
 /-- the best move after one more move is the old one or the move just searched. -/
 theorem abAfter_best (c : Comp σ π) (L : Limits) (x : ABCtx) (m : Move) (r : Board.Reverse)
     (l : ABLoop π) (value : Score) (s : St σ) :
@@ -341,40 +343,48 @@ theorem abEnter_alpha (l : ABLoop π) (cap : Piece) (m : Move) : (abEnter l cap 
 
 theorem abLoop_spec (c : Comp σ π) (L : Limits) {Good : Board → Prop} (hl : Laws c Good) (child : Child σ)
     (hc : ABSpec c L Good child) (x : ABCtx) (h0 : 0 ≤ x.ply) (h1 : x.ply < 63) (hmv : Move) :
-    ∀ (n : Nat) (l : ABLoop π) (s : St σ), Good s.board → Reach c s.board hmv l.pick l.yielded →
+    ∀ (n : Nat) (l : ABLoop π) (s : St σ), Good s.board → NodeOK s → HashOK c s.board hmv →
+      Reach c s.board hmv l.pick l.yielded → (l.bestMove = 0 ∨ l.bestMove ∈ MoveGen.gen s.board) →
       LegalLine c.keys s.board (s.pv.row x.ply.toNat) →
       let o := abLoop c L child x n l s
-      Frame L s o.2 ∧ (∀ q, q < x.ply.toNat → o.2.pv.row q = s.pv.row q) ∧ LegalLine c.keys s.board (o.2.pv.row x.ply.toNat) := by
+      Frame L s o.2 ∧ (∀ q, q < x.ply.toNat → o.2.pv.row q = s.pv.row q) ∧ LegalLine c.keys s.board (o.2.pv.row x.ply.toNat) ∧
+        (∀ l', o.1 = .done l' → l'.bestMove = 0 ∨ l'.bestMove ∈ MoveGen.gen s.board) := by
   intro n
   induction n with
-  | zero => intro l s _ _ hline; exact ⟨⟨mono_outOfFuel L s, rfl, rfl, rfl⟩, fun _ _ => rfl, hline⟩
+  | zero =>
+    intro l s _ _ _ _ _ hline
+    exact ⟨⟨mono_outOfFuel L s, rfl, rfl, rfl⟩, fun _ _ => rfl, hline, fun l' h => by cases h⟩
   | succ n ih =>
-    intro l s hg hreach hline
+    intro l s hg hn hhash hreach hbest hline
     simp only [abLoop]
     split
-    · exact ⟨Frame.refl L s, fun _ _ => rfl, hline⟩
+    · exact ⟨Frame.refl L s, fun _ _ => rfl, hline, fun l' h => by cases h; exact hbest⟩
     · next m pk hpick =>
-      have hmem : m ∈ MoveGen.gen s.board := hl.pick_mem _ _ _ _ _ _ _ _ hg hreach hpick
-      have hreach' : Reach c s.board hmv pk (m :: l.yielded) := Reach.next hreach hpick
+      have hmem : m ∈ MoveGen.gen s.board := hl.pick_mem _ _ _ _ _ _ _ _ hg hhash hreach hn.1 hpick
+      have hreach' : Reach c s.board hmv pk (m :: l.yielded) := Reach.next hreach hn.1 hpick
       have hu := hl.undo_make s.board m hg hmem
       split
-      · rw [hu, setBoard_self]; exact ih _ s hg hreach' hline
+      · rw [hu, setBoard_self]; exact ih _ s hg hn hhash hreach' hbest hline
       · next hchk =>
         have hchk' : (s.board.makeMove c.keys m).1.inCheck s.board.stm = false := by simpa using hchk
-        have hg' := hl.good_make s.board m hg hmem hchk'
+        have hg' := hl.good_make s.board m hg hn.2 hmem hchk'
         have hplay : m ∈ MoveGen.playable c.keys s.board := mem_playable.2 ⟨hmem, hchk'⟩
         generalize hl2 : abEnter { l with pick := pk, yielded := m :: l.yielded } (s.board.pieceAt (s.board.captureSq m)) m = l2
         have hsm := searchMove_spec c L child hc x l2 (nextNodeType x.nt l2.moveCnt)
           ((s.setBoard (s.board.makeMove c.keys m).1).push
-            { piece := s.board.pieceAt (Move.src m), to := Move.dst m, score := x.staticEval }) hg' h0 h1
+            { piece := s.board.pieceAt (Move.src m), to := Move.dst m, score := x.staticEval }) hg' hn.1 h0 h1
         simp only at hsm
         generalize searchMove c child x l2 (nextNodeType x.nt l2.moveCnt)
           ((s.setBoard (s.board.makeMove c.keys m).1).push
             { piece := s.board.pieceAt (Move.src m), to := Move.dst m, score := x.staticEval }) = r at hsm ⊢
-        have ha := abAfter_spec c L x m (s.board.makeMove c.keys m).2 l2 r.1 r.2
-        simp only at ha
-        generalize abAfter c L x m (s.board.makeMove c.keys m).2 l2 r.1 r.2 = o at ha ⊢
         obtain ⟨hsf, hsrows, hsline⟩ := hsm
+        have hub : r.2.board.undoMove m (s.board.makeMove c.keys m).2 = s.board := by
+          rw [hsf.board]; simpa using hu
+        have ha := abAfter_spec c L hl x m (s.board.makeMove c.keys m).2 l2 r.1 r.2
+          (by rw [hub]; exact hg) (by rw [hub]; exact hmem)
+        have hbm := abAfter_best c L x m (s.board.makeMove c.keys m).2 l2 r.1 r.2
+        simp only at ha
+        generalize abAfter c L x m (s.board.makeMove c.keys m).2 l2 r.1 r.2 = o at ha hbm ⊢
         obtain ⟨hm1, hb1, hh1, hf1, hpvcase, hpick'⟩ := ha
         have hboard : o.2.board = s.board := by rw [hb1, hsf.board]; simpa using hu
         have hfr : Frame L s o.2 :=
@@ -391,30 +401,37 @@ theorem abLoop_spec (c : Comp σ π) (L : Limits) {Good : Board → Prop} (hl : 
           · rw [h, insert_row_self]
             have : l2.alpha = l.alpha := by rw [← hl2, abEnter_alpha]
             exact LegalLine.cons hplay (hsline hgt)
+        have hbest2 : ∀ l', (o.1 = .cont l' ∨ o.1 = .brk l') → l'.bestMove = 0 ∨ l'.bestMove ∈ MoveGen.gen s.board := by
+          intro l' h'
+          have e2 : l2.bestMove = l.bestMove := by rw [← hl2]; rfl
+          rcases hbm l' h' with e | e
+          · rw [e, e2]; exact hbest
+          · rw [e]; exact Or.inr hmem
         obtain ⟨st, s'⟩ := o
         cases st with
-        | ret v => exact ⟨hfr, hrows, hline'⟩
-        | brk l' => exact ⟨hfr, hrows, hline'⟩
+        | ret v => exact ⟨hfr, hrows, hline', fun l' h => by cases h⟩
+        | brk l' => exact ⟨hfr, hrows, hline', fun l'' h => by cases h; exact hbest2 l' (Or.inr rfl)⟩
         | cont l' =>
           simp only at hfr hrows hline' hboard ⊢
           have hr2 : Reach c s'.board hmv l'.pick l'.yielded := by
             obtain ⟨hy, w, hw⟩ := hpick' l' (Or.inl rfl)
             rw [hboard, hy, hw, ← hl2]
             exact Reach.weight hreach'
-          have := ih l' s' (by rw [hboard]; exact hg) hr2 (by rw [hboard]; exact hline')
+          have := ih l' s' (by rw [hboard]; exact hg) (hfr.nodeOK hn) (by rw [hboard]; exact hhash) hr2
+            (by rw [hboard]; exact hbest2 l' (Or.inl rfl)) (by rw [hboard]; exact hline')
           rw [hboard] at this
-          exact ⟨hfr.trans this.1, fun q hq => (this.2.1 q hq).trans (hrows q hq), this.2.2⟩
+          exact ⟨hfr.trans this.1, fun q hq => (this.2.1 q hq).trans (hrows q hq), this.2.2.1, this.2.2.2⟩
 
 theorem nullMove_spec (c : Comp σ π) (L : Limits) {Good : Board → Prop} (hl : Laws c Good) (child : Child σ)
     (hc : ABSpec c L Good child) (beta : Score) (d : Int) {ply : Int} (h0 : 0 ≤ ply) (h1 : ply < 63) (se : Score)
-    (s : St σ) (hg : Good s.board) (hchk : s.board.inCheck s.board.stm = false) :
+    (s : St σ) (hg : Good s.board) (hok : PsInv.ok s.ps) (hchk : s.board.inCheck s.board.stm = false) :
     let o := nullMove c child beta d ply se s
     Frame L s o.2 ∧ (∀ q, q ≤ ply.toNat → o.2.pv.row q = s.pv.row q) := by
   simp only [nullMove]
   have hg' := hl.good_null s.board hg hchk
   have hu := hl.undo_null s.board hg hchk
   have cc := callChild_post c L child hc (neg beta) (wrapS16 (neg beta + 1)) (c.nmpDepth d se beta) h0 h1 .cut
-    (s.setBoard (s.board.makeNull c.keys).1) hg'
+    (s.setBoard (s.board.makeNull c.keys).1) hg' hok
   simp only at cc
   generalize callChild child (neg beta) (wrapS16 (neg beta + 1)) (c.nmpDepth d se beta) (wrapS8 (ply + 1)) .cut
     (s.setBoard (s.board.makeNull c.keys).1) = r at cc ⊢
@@ -428,7 +445,8 @@ theorem nullMove_spec (c : Comp σ π) (L : Limits) {Good : Board → Prop} (hl 
 
 theorem abMoves_spec (c : Comp σ π) (L : Limits) {Good : Board → Prop} (hl : Laws c Good) (child : Child σ)
     (hc : ABSpec c L Good child) (alpha beta : Score) (d : Int) {ply : Int} (h0 : 0 ≤ ply) (h1 : ply < 63)
-    (nt : NodeType) (inCheck improving : Bool) (se : Score) (hm : Move) (s : St σ) (hg : Good s.board)
+    (nt : NodeType) (inCheck improving : Bool) (se : Score) (hm : Move) (s : St σ) (hg : Good s.board) (hn : NodeOK s)
+    (hhash : HashOK c s.board hm)
     (hline : LegalLine c.keys s.board (s.pv.row ply.toNat)) :
     ABPost c.keys L ply.toNat s (abMoves c L child alpha beta d ply nt inCheck improving se hm s).2 := by
   simp only [abMoves]
@@ -437,7 +455,7 @@ theorem abMoves_spec (c : Comp σ π) (L : Limits) {Good : Board → Prop} (hl :
   have h := abLoop_spec c L hl child hc x (by rw [hxp]; exact h0) (by rw [hxp]; exact h1) hm
     ((MoveGen.gen s.board).length + 1)
     { alpha := alpha, bestMove := 0, hasLegal := false, failLow := true, maxim := -Inf - 1, moveCnt := 0, quietCnt := 0,
-      pick := c.pickInit s.board hm, yielded := [] } s.pushFrame hg Reach.init (by rw [hxp]; exact hline)
+      pick := c.pickInit s.board hm, yielded := [] } s.pushFrame hg hn hhash Reach.init (Or.inl rfl) (by rw [hxp]; exact hline)
   simp only [hxp] at h
   generalize abLoop c L child x ((MoveGen.gen s.board).length + 1)
     { alpha := alpha, bestMove := 0, hasLegal := false, failLow := true, maxim := -Inf - 1, moveCnt := 0, quietCnt := 0,
@@ -445,12 +463,27 @@ theorem abMoves_spec (c : Comp σ π) (L : Limits) {Good : Board → Prop} (hl :
   have hfr : Frame L s r.2.popFrame :=
     ⟨(mono_pushFrame L s).trans (h.1.mono.trans (mono_popFrame L _)), h.1.board, h.1.hstack, by simp [h.1.frames]⟩
   split
-  · exact ⟨hfr, h.2.1, h.2.2⟩
-  · exact ⟨⟨hfr.mono.trans ((mono_setPs L _ _).trans (mono_flag L _ _)), hfr.board, hfr.hstack, hfr.frames⟩, h.2.1, h.2.2⟩
+  · exact ⟨hfr, h.2.1, h.2.2.1⟩
+  · next l heq =>
+    have hbest := h.2.2.2 l heq
+    have hgb : Good r.2.popFrame.board := by rw [hfr.board]; exact hg
+    have hbest' : l.bestMove = 0 ∨ l.bestMove ∈ MoveGen.gen r.2.popFrame.board := by rw [hfr.board]; exact hbest
+    refine ⟨⟨hfr.mono.trans ((mono_setPs L _ _ (fun h' => ?_)).trans (mono_flag L _ _)), hfr.board, hfr.hstack, hfr.frames⟩,
+      h.2.1, h.2.2.1⟩
+    have hst : ∀ dd pp m' v bd, (m' = 0 ∨ m' = l.bestMove) →
+        PsInv.ok (c.ttStore r.2.popFrame.ps r.2.popFrame.board dd pp m' v bd) := by
+      intro dd pp m' v bd hm'
+      refine hl.ok_store _ _ _ _ _ _ _ h' hgb ?_
+      rcases hm' with e | e
+      · exact Or.inl e
+      · rw [e]; exact hbest'
+    repeat' split
+    all_goals first | exact hst _ _ _ _ _ (Or.inl rfl) | exact hst _ _ _ _ _ (Or.inr rfl)
 
 theorem abPrune_spec (c : Comp σ π) (L : Limits) {Good : Board → Prop} (hl : Laws c Good) (child : Child σ)
     (hc : ABSpec c L Good child) (alpha beta : Score) (d : Int) {ply : Int} (h0 : 0 ≤ ply) (h1 : ply < 63)
-    (nt : NodeType) (inCheck improving : Bool) (se : Score) (hm : Move) (s : St σ) (hg : Good s.board)
+    (nt : NodeType) (inCheck improving : Bool) (se : Score) (hm : Move) (s : St σ) (hg : Good s.board) (hn : NodeOK s)
+    (hhash : HashOK c s.board hm)
     (hic : inCheck = s.board.inCheck s.board.stm)
     (hline : LegalLine c.keys s.board (s.pv.row ply.toNat)) :
     ABPost c.keys L ply.toNat s (abPrune c L child alpha beta d ply nt inCheck improving se hm s).2 := by
@@ -463,27 +496,28 @@ theorem abPrune_spec (c : Comp σ π) (L : Limits) {Good : Board → Prop} (hl :
         rw [← hic]; cases inCheck
         · rfl
         · simp at hnm
-      have hn := nullMove_spec c L hl child hc beta d h0 h1 se s hg hchk
-      simp only at hn
-      generalize nullMove c child beta d ply se s = nm at hn ⊢
+      have hn' := nullMove_spec c L hl child hc beta d h0 h1 se s hg hn.1 hchk
+      simp only at hn'
+      generalize nullMove c child beta d ply se s = nm at hn' ⊢
       have hline' : LegalLine c.keys nm.2.board (nm.2.pv.row ply.toNat) := by
-        rw [hn.1.board, hn.2 _ (Nat.le_refl _)]; exact hline
+        rw [hn'.1.board, hn'.2 _ (Nat.le_refl _)]; exact hline
       split
-      · exact ⟨hn.1, fun q hq => hn.2 q (by omega), by rw [hn.2 _ (Nat.le_refl _)]; exact hline⟩
+      · exact ⟨hn'.1, fun q hq => hn'.2 q (by omega), by rw [hn'.2 _ (Nat.le_refl _)]; exact hline⟩
       · have := abMoves_spec c L hl child hc alpha beta d h0 h1 nt inCheck improving se hm nm.2
-          (by rw [hn.1.board]; exact hg) hline'
-        refine ⟨hn.1.trans this.1, fun q hq => (this.2.1 q hq).trans (hn.2 q (by omega)), ?_⟩
-        rw [← hn.1.board]; exact this.2.2
-    · exact abMoves_spec c L hl child hc alpha beta d h0 h1 nt _ _ _ _ s hg hline
+          (by rw [hn'.1.board]; exact hg) (hn'.1.nodeOK hn) (by rw [hn'.1.board]; exact hhash) hline'
+        refine ⟨hn'.1.trans this.1, fun q hq => (this.2.1 q hq).trans (hn'.2 q (by omega)), ?_⟩
+        rw [← hn'.1.board]; exact this.2.2
+    · exact abMoves_spec c L hl child hc alpha beta d h0 h1 nt _ _ _ _ s hg hn hhash hline
 
 theorem abBody_spec (c : Comp σ π) (L : Limits) {Good : Board → Prop} (hl : Laws c Good) (child : Child σ)
     (hc : ABSpec c L Good child) (alpha beta : Score) (d : Int) {ply : Int} (h0 : 0 ≤ ply) (h1 : ply < 63)
-    (nt : NodeType) (s : St σ) (hg : Good s.board) (hline : LegalLine c.keys s.board (s.pv.row ply.toNat)) :
+    (nt : NodeType) (s : St σ) (hg : Good s.board) (hn : NodeOK s)
+    (hline : LegalLine c.keys s.board (s.pv.row ply.toNat)) :
     ABPost c.keys L ply.toNat s (abBody c L child alpha beta d ply nt s).2 := by
   simp only [abBody]
   split
   · exact ⟨Frame.refl L s, fun _ _ => rfl, hline⟩
-  · exact abPrune_spec c L hl child hc alpha beta d h0 h1 nt _ _ _ _ s hg rfl hline
+  · exact abPrune_spec c L hl child hc alpha beta d h0 h1 nt _ _ _ _ s hg hn (hashOK_probe c hn.1 s.board ply) rfl hline
 
 theorem setNull_row_self (r : Pv.Rows) (p : Nat) : (r.setNull p).row p = [] := by simp [Pv.Rows.setNull]
 theorem setNull_row_ne (r : Pv.Rows) (p q : Nat) (h : q ≠ p) : (r.setNull p).row q = r.row q := by
@@ -494,13 +528,13 @@ theorem alphaBeta_spec (c : Comp σ π) (L : Limits) {Good : Board → Prop} (hl
     ABSpec c L Good (alphaBeta c L fuel) := by
   induction fuel with
   | zero =>
-    intro a b d ply nt s _ _
+    intro a b d ply nt s _ _ _
     exact ⟨⟨(mono_setPv L s _).trans (mono_outOfFuel L _), rfl, rfl, rfl⟩,
       fun q hq => setNull_row_ne _ _ _ (by omega), by
         show LegalLine c.keys s.board ((s.pv.setNull ply.toNat).row ply.toNat)
         rw [setNull_row_self]; exact LegalLine.nil⟩
   | succ fuel ih =>
-    intro a b d ply nt s hg h0
+    intro a b d ply nt s hg hok h0
     simp only [alphaBeta]
     have hs0 : Frame L s (s.setPv (s.pv.setNull ply.toNat)) := ⟨mono_setPv L s _, rfl, rfl, rfl⟩
     have hrow0 : ∀ q, q < ply.toNat → (s.setPv (s.pv.setNull ply.toNat)).pv.row q = s.pv.row q :=
@@ -508,7 +542,7 @@ theorem alphaBeta_spec (c : Comp σ π) (L : Limits) {Good : Board → Prop} (hl
     have hnil : (s.setPv (s.pv.setNull ply.toNat)).pv.row ply.toNat = [] := setNull_row_self _ _
     split
     · -- quiescence
-      have := quiescence_spec c L hl (fuel + 1) a b ply (s.setPv (s.pv.setNull ply.toNat)) hg
+      have := quiescence_spec c L hl (fuel + 1) a b ply (s.setPv (s.pv.setNull ply.toNat)) hg hok
       refine ⟨hs0.trans this.1, fun q hq => by rw [this.2]; exact hrow0 q hq, ?_⟩
       rw [this.2, hnil]; exact LegalLine.nil
     · next hq =>
@@ -516,7 +550,7 @@ theorem alphaBeta_spec (c : Comp σ π) (L : Limits) {Good : Board → Prop} (hl
       have i1 := incrementNodes_frame L (s.setPv (s.pv.setNull ply.toNat))
       have ip := incrementNodes_pv L (s.setPv (s.pv.setNull ply.toNat))
       generalize incrementNodes L (s.setPv (s.pv.setNull ply.toNat)) = s1 at i1 ip ⊢
-      have hab : Frame L s1 { s1 with abNodes := s1.abNodes + 1 } := ⟨Mono.of_eq rfl rfl rfl rfl rfl rfl, rfl, rfl, rfl⟩
+      have hab : Frame L s1 { s1 with abNodes := s1.abNodes + 1 } := ⟨Mono.of_eq rfl rfl rfl rfl rfl rfl rfl, rfl, rfl, rfl⟩
       have a1 := abort_frame L { s1 with abNodes := s1.abNodes + 1 }
       have ap := (abort_pv L { s1 with abNodes := s1.abNodes + 1 }).1
       generalize abort L { s1 with abNodes := s1.abNodes + 1 } = as at a1 ap ⊢
@@ -531,7 +565,9 @@ theorem alphaBeta_spec (c : Comp σ π) (L : Limits) {Good : Board → Prop} (hl
       · exact ⟨hf, hrows, hline'⟩
       · split
         · exact ⟨hf, hrows, hline'⟩
-        · have := abBody_spec c L hl (alphaBeta c L fuel) ih a b d h0 h1 nt as.2 (by rw [hf.board]; exact hg) hline
+        · next hnd =>
+          have := abBody_spec c L hl (alphaBeta c L fuel) ih a b d h0 h1 nt as.2 (by rw [hf.board]; exact hg)
+            ⟨hf.mono.ps_ok hok, fifty_lt_of_not_draw hnd⟩ hline
           refine ⟨hf.trans this.1, fun q hq' => (this.2.1 q hq').trans (hrows q hq'), ?_⟩
           rw [← hf.board]; exact this.2.2
 
